@@ -11,6 +11,7 @@ import (
 	"regexp"
 	"strconv"
 	"strings"
+	"time"
 
 	"verif/work"
 )
@@ -202,6 +203,56 @@ func DoAfter(w *work.WS, bin string, env []string, cwd string, outAbs string, ar
 	}
 	e := Do(w, bin, env, d, outAbs, first...)
 	return Do(w, bin, env, cwd, outAbs, args...), e.Res.Exit == 0
+}
+
+// DoPiped is Do with one more input in front of the written ones: args gets `-i base.yaml` (an empty configuration in a regular file)
+// before its first -i, and the input named pipedName is a named pipe that this process feeds with content while the tool runs - what
+// `generator | gontainer build -i base.yaml -i /dev/stdin` looks like. seen reports that the tool opened the pipe and read all of it.
+func DoPiped(w *work.WS, bin string, env []string, cwd string, outAbs string, pipedName, content string, args ...string) (r Run, seen bool) {
+	_ = os.WriteFile(filepath.Join(cwd, "base.yaml"), []byte("services: {}\n"), 0o644)
+	_ = os.Remove(filepath.Join(cwd, pipedName))
+	p, err := work.FeedFifo(filepath.Join(cwd, pipedName), []byte(content))
+	if err != nil {
+		_ = os.WriteFile(filepath.Join(cwd, pipedName), []byte(content), 0o644)
+		return Do(w, bin, env, cwd, outAbs, args...), false
+	}
+	var a2 []string
+	done := false
+	for _, a := range args {
+		if a == "-i" && !done {
+			a2 = append(a2, "-i", "base.yaml")
+			done = true
+		}
+		a2 = append(a2, a)
+	}
+	r = Do(w, bin, env, cwd, outAbs, a2...)
+	o, c := p.Stop()
+	return r, o && c
+}
+
+// DoStdout is Do with the tool's standard output opened on another file (e.g. /dev/full, where every write fails).
+func DoStdout(w *work.WS, bin string, env []string, cwd string, outAbs string, stdoutPath string, args ...string) Run {
+	return DoStdoutMode(w, bin, env, cwd, outAbs, stdoutPath, os.O_WRONLY, args...)
+}
+
+// DoStdoutMode: like DoStdout, the file is opened with the given access mode (os.O_RDONLY: a descriptor that cannot be written).
+func DoStdoutMode(w *work.WS, bin string, env []string, cwd string, outAbs string, stdoutPath string, mode int, args ...string) Run {
+	if bin == "" {
+		bin = w.Bin
+	}
+	if env == nil {
+		env = w.SaneEnv()
+	}
+	r := Run{Args: args, Cwd: cwd, OutPath: outAbs}
+	if outAbs != "" {
+		r.Before = work.StatFile(outAbs)
+	}
+	r.Res = work.RunToMode(stdoutPath, mode, bin, cwd, env, 120*time.Second, nil, args...)
+	if outAbs != "" {
+		r.After = work.StatFile(outAbs)
+	}
+	r.Rep = Parse(r.Res.Stdout)
+	return r
 }
 
 // Contract checks the part of C10 that holds for every run regardless of input; it
